@@ -9,7 +9,7 @@
    false = the unchanged tree, true = the tree with fixes/C10-duplicate-base.patch; the check establishes on
    every run which of the two describes the tree under test. *)
 From Coq Require Import List Arith Bool.
-From PV Require Import Mro.Model Mro.Proofs.
+From PV Require Import Mro.Model Mro.Proofs Mro.Attr Mro.AttrProofs.
 Import ListNotations.
 
 (* ---- the two merge algorithms ---- *)
@@ -177,3 +177,186 @@ Example pytd_hyps :
   get_bases_in_mro (firstn 5 diamond) [3; 0] = Ok [3; 1; 2; 0] /\
   get_bases_in_mro (firstn 5 diamond) [3; 4] = Reject.
 Proof. vm_compute. repeat split; reflexivity. Qed.
+
+(* ================================================================================================ *)
+(* Extension (Mro/Attr.v): super() lookups, instance dictionaries filled by __init__ chains, Generic bases *)
+
+(* ---- super() ---- *)
+
+(* pytype's skip SET (attribute.py _get_attribute_from_super_instance + _lookup_from_mro with skip) and CPython's index
+   walk (_super_lookup_descr) find the same definition, for every duplicate-free MRO, calling class and name ... *)
+Theorem super_lookup_agree : forall (attrs : list (list nat)) (mro : list nat) (cur name : nat),
+  NoDup mro -> super_lookup_py attrs mro cur name = super_lookup_c attrs mro cur name.
+Proof. exact super_lookup_agree_lemma. Qed.
+Print Assumptions super_lookup_agree.
+
+(* ... namely the first definition STRICTLY AFTER the calling class in the instance's MRO (none if the calling class is
+   not in that MRO: pytype then reports attribute-error, CPython raises TypeError at the super() call). *)
+Theorem super_lookup_after_calling_class : forall (attrs : list (list nat)) (mro : list nat) (cur name : nat),
+  super_lookup_c attrs mro cur name = find (defines attrs name) (after cur mro) /\
+  (NoDup mro -> super_lookup_py attrs mro cur name = find (defines attrs name) (after cur mro)).
+Proof. intros. split. apply super_lookup_c_after. apply super_lookup_py_after. Qed.
+Print Assumptions super_lookup_after_calling_class.
+
+(* the hypothesis is needed (a set forgets positions) and is met by every MRO a class table produces (mro_nodup) *)
+Theorem super_lookup_needs_nodup :
+  exists attrs mro cur name, super_lookup_py attrs mro cur name <> super_lookup_c attrs mro cur name.
+Proof. exact super_lookup_needs_nodup_lemma. Qed.
+Print Assumptions super_lookup_needs_nodup.
+
+Theorem mro_nodup : forall (H : list (list nat)) (c : nat),
+  wf_table H = true -> NoDup (mro_of (table_mros (mros_c H)) c).
+Proof. exact mros_c_nodup. Qed.
+Print Assumptions mro_nodup.
+
+(* Cooperative chains: if every definition of a method calls super().<name>(), the definitions that run for an instance
+   are exactly the classes of the instance's MRO that define the name, in MRO order, each once -- in both. *)
+Theorem super_chain_visits_every_definition : forall (attrs : list (list nat)) (mro : list nat) (name : nat),
+  NoDup mro ->
+  super_chain_py attrs mro name = filter (defines attrs name) mro /\
+  super_chain_c attrs mro name = filter (defines attrs name) mro.
+Proof. intros. split. apply super_chain_py_lemma; auto. apply super_chain_c_lemma; auto. Qed.
+Print Assumptions super_chain_visits_every_definition.
+
+(* On class tables, super(cur, <instance of c>).name (zero- or two-argument form, any cur, c, name, hierarchy). *)
+Theorem super_agree_with_dupcheck : forall (H attrs : list (list nat)) (c cur name : nat),
+  wf_table H = true -> super_py true H attrs (SInst c) cur name = super_c H attrs (SInst c) cur name.
+Proof. exact super_agree_inst_dupcheck_lemma. Qed.
+Print Assumptions super_agree_with_dupcheck.
+
+Theorem super_agree_partial : forall (dupcheck : bool) (H attrs : list (list nat)) (c cur name : nat),
+  wf_table H = true -> no_dup_bases H = true ->
+  super_py dupcheck H attrs (SInst c) cur name = super_c H attrs (SInst c) cur name.
+Proof. exact super_agree_inst_partial_lemma. Qed.
+Print Assumptions super_agree_partial.
+
+(* super() inside a CLASSMETHOD: REFUTED.  pytype takes the MRO of the calling class (starting_cls = super_cls whenever
+   super_obj is a class), CPython the MRO of the class the method was called on.  Diamond A; B(A); C(A); D(B, C), f defined
+   by A, B, C; inside B.f called as D.f(): CPython continues with C.f, pytype with A.f. *)
+Theorem super_classmethod_refuted :
+  exists H attrs c cur name,
+    wf_table H = true /\ no_dup_bases H = true /\ In cur (mro_of (table_mros (mros_c H)) c) /\
+    super_py true H attrs (SCls c) cur name = Some 1 /\ super_c H attrs (SCls c) cur name = Some 3.
+Proof. exists cm_table, cm_attrs, 4, 2, 7. exact super_classmethod_refuted_lemma. Qed.
+Print Assumptions super_classmethod_refuted.
+
+(* ... it holds when the classmethod is called on the calling class itself *)
+Theorem super_classmethod_same_class_partial : forall (H attrs : list (list nat)) (cur name : nat),
+  wf_table H = true -> super_py true H attrs (SCls cur) cur name = super_c H attrs (SCls cur) cur name.
+Proof. exact super_agree_cls_same_lemma. Qed.
+Print Assumptions super_classmethod_same_class_partial.
+
+(* ---- instance attributes ---- *)
+
+(* The instance dictionary left by the chain of __init__ methods (own stores before / after / without a super().__init__()
+   call, per class) is the same list of stores in the same order. *)
+Theorem instance_dict_agree : forall (inits : list (nat * list nat)) (mro : list nat) (n : nat),
+  NoDup mro -> inst_dict_py inits mro n = inst_dict_c inits mro n.
+Proof. exact inst_dict_agree_lemma. Qed.
+Print Assumptions instance_dict_agree.
+
+(* `C<c>().name`: __getattribute__ hook, instance dictionary, class MRO, __getattr__ hook -- same answer, same source. *)
+Theorem read_instance_agree_with_dupcheck :
+  forall (H attrs hooks : list (list nat)) (inits : list (nat * list nat)) (c name : nat),
+  wf_table H = true -> read_inst_py true H attrs hooks inits c name = read_inst_c H attrs hooks inits c name.
+Proof. exact read_inst_agree_dupcheck_lemma. Qed.
+Print Assumptions read_instance_agree_with_dupcheck.
+
+Theorem read_instance_agree_partial :
+  forall (dupcheck : bool) (H attrs hooks : list (list nat)) (inits : list (nat * list nat)) (c name : nat),
+  wf_table H = true -> no_dup_bases H = true ->
+  read_inst_py dupcheck H attrs hooks inits c name = read_inst_c H attrs hooks inits c name.
+Proof. exact read_inst_agree_partial_lemma. Qed.
+Print Assumptions read_instance_agree_partial.
+
+(* When every __init__ calls super().__init__() first and stores afterwards, the value read back from the instance is the
+   one stored by the FIRST class in MRO order whose __init__ stores the name (in both). *)
+Theorem instance_attr_first_in_mro : forall (inits : list (nat * list nat)) (mro : list nat) (n name : nat),
+  NoDup mro -> (forall c, In c mro -> c < n) -> all_post inits mro ->
+  inst_get (inst_dict_py inits mro n) name = find (stores_name inits name) mro /\
+  inst_get (inst_dict_c inits mro n) name = find (stores_name inits name) mro.
+Proof. exact inst_attr_first_in_mro_lemma. Qed.
+Print Assumptions instance_attr_first_in_mro.
+
+(* ---- Generic[...] / parameterised bases in compute_mro ---- *)
+
+(* What is compared: the classes (base_cls) of the entries of the MRO pytype computes -- get_mro_bases, identity-based
+   duplicate check, renaming parameterised class -> base_cls, MROMerge, base2cls -- against the __mro__ CPython computes
+   from the bases that remain after typing's __mro_entries__ (A[...] -> A; Generic[...] -> Generic, or nothing if a later
+   base is an alias).  First: the renaming is transparent -- pytype's result is exactly CPython's linearisation of the
+   class statement AS get_mro_bases READS IT, for every table in which no statement names the same class twice. *)
+Theorem generic_renaming_preserves_linearisation : forall G : list (list gref),
+  gwf_table G = true -> no_dup_bases (map py_resolve G) = true ->
+  gproject (gmros_py G) = gmros_c_py_reading G.
+Proof. exact generic_rename_lemma. Qed.
+Print Assumptions generic_renaming_preserves_linearisation.
+
+(* hence agreement with CPython whenever the two readings of the statements lead CPython to the same classes
+   (monitored on every generated table), in particular when they are literally the same lists of distinct classes *)
+Theorem generic_agree_partial : forall G : list (list gref),
+  gwf_table G = true -> no_dup_bases (map py_resolve G) = true -> readings_agree G ->
+  gproject (gmros_py G) = gmros_c G.
+Proof. exact generic_agree_partial_lemma. Qed.
+Print Assumptions generic_agree_partial.
+
+Theorem generic_agree_same_reading : forall G : list (list gref),
+  gwf_table G = true -> same_reading_table G = true -> gproject (gmros_py G) = gmros_c G.
+Proof. exact same_reading_agree_lemma. Qed.
+Print Assumptions generic_agree_same_reading.
+
+(* The full statement is REFUTED twice.  (1) `class Y(X[T], Bp, Generic[T])` with X(A[T], Bp): typing keeps Generic as a
+   base, which contradicts X's MRO -> TypeError; get_mro_bases drops every Generic once a user generic is present. *)
+Theorem generic_dropped_refuted :
+  exists G, gwf_table G = true /\ no_dup_bases (map py_resolve G) = true /\
+            table_error (gproject (gmros_py G)) = None /\ table_error (gmros_c G) = Some 5.
+Proof. exists gen_witness. exact generic_dropped_refuted_lemma. Qed.
+Print Assumptions generic_dropped_refuted.
+
+(* (2) `class E(A[int], A[int])`: two parameterised class objects pass the identity-based duplicate check and are merged
+   into one by the renaming; CPython: TypeError duplicate base class A. *)
+Theorem generic_alias_duplicate_refuted :
+  exists G, gwf_table G = true /\
+            table_error (gproject (gmros_py G)) = None /\ table_error (gmros_c G) = Some 3.
+Proof. exists alias_dup_witness. exact alias_duplicate_refuted_lemma. Qed.
+Print Assumptions generic_alias_duplicate_refuted.
+
+(* ---- non-vacuity of the extension ---- *)
+
+(* diamond object; P; Q(P); R(P); S(Q, R), name 7 defined by P, Q, R: super() inside Q on an S instance finds R (the
+   sibling), on a Q instance finds P; the cooperative chain on S runs Q, R, P. *)
+Definition dia : list (list nat) := [[]; [0]; [1]; [1]; [2; 3]].
+Definition dia_attrs : list (list nat) := [[]; [7]; [7]; [7]; []].
+Example dia_super :
+  wf_table dia = true /\ NoDup (mro_of (table_mros (mros_c dia)) 4) /\
+  super_c dia dia_attrs (SInst 4) 2 7 = Some 3 /\ super_py true dia dia_attrs (SInst 4) 2 7 = Some 3 /\
+  super_c dia dia_attrs (SInst 2) 2 7 = Some 1 /\
+  super_chain_py dia_attrs (mro_of (table_mros (mros_c dia)) 4) 7 = [2; 3; 1].
+Proof. vm_compute. repeat split; try reflexivity. repeat constructor; simpl; intuition discriminate. Qed.
+
+(* __init__: P stores x (kind 2), Q stores x (kind 2), R stores x,y (kind 1: stores first): S().x comes from Q, S().y
+   from R; with a __getattr__ in P a missing name is computed by P's hook *)
+Definition dia_inits : list (nat * list nat) := [(3, []); (2, [5]); (2, [5]); (1, [5; 6]); (0, [])].
+Example dia_instance :
+  read_inst_c dia dia_attrs [[]; [1]; []; []; []] dia_inits 4 5 = AInst 2 /\
+  read_inst_py true dia dia_attrs [[]; [1]; []; []; []] dia_inits 4 6 = AInst 3 /\
+  read_inst_c dia dia_attrs [[]; [1]; []; []; []] dia_inits 4 7 = ACls 2 /\
+  read_inst_c dia dia_attrs [[]; [1]; []; []; []] dia_inits 4 9 = AHook 1 1.
+Proof. vm_compute. repeat split; reflexivity. Qed.
+Definition dia_inits_post : list (nat * list nat) := [(0, []); (2, [5]); (2, [5]); (2, [5; 6]); (0, [])].
+Example dia_all_post : all_post dia_inits_post [4; 2; 3; 1; 0] /\
+  find (stores_name dia_inits_post 6) [4; 2; 3; 1; 0] = Some 3.
+Proof. split; [|reflexivity]. intros c Hc. simpl in Hc. intuition (subst; vm_compute; auto). Qed.
+
+(* Generic: object; Generic; A(Generic[T]); B(Generic[T], A[T]); C(A[int]); D(C, B[int]): same reading, created alike *)
+Definition gen_ok : list (list gref) := [[]; [(0, 0)]; [(1, 1)]; [(1, 1); (2, 1)]; [(2, 2)]; [(4, 0); (3, 2)]].
+Example gen_ok_result :
+  gwf_table gen_ok = true /\ same_reading_table gen_ok = true /\
+  gmros_c gen_ok = TableOk [[0]; [1; 0]; [2; 1; 0]; [3; 2; 1; 0]; [4; 2; 1; 0]; [5; 4; 3; 2; 1; 0]] /\
+  gmros_py gen_ok = GOk [[(0, 0)]; [(1, 0); (0, 0)]; [(2, 0); (1, 1); (0, 0)]; [(3, 0); (2, 1); (1, 1); (0, 0)];
+                         [(4, 0); (2, 2); (1, 1); (0, 0)]; [(5, 0); (4, 0); (3, 2); (2, 1); (1, 1); (0, 0)]].
+Proof. vm_compute. repeat split; reflexivity. Qed.
+(* the usual spelling `class C(A[T], Generic[T])`: different readings ([A] vs [A; Generic]), same classes created *)
+Definition gen_trailing : list (list gref) := [[]; [(0, 0)]; [(1, 1)]; [(2, 1); (1, 1)]].
+Example gen_trailing_readings :
+  same_reading_table gen_trailing = false /\ gmros_c_py_reading gen_trailing = gmros_c gen_trailing.
+Proof. vm_compute. split; reflexivity. Qed.
